@@ -612,6 +612,9 @@ def c14_make_twin(base, rng):
     for op in base["ops"]:
         while rng.chance(2, 5):
             ops_b.append(copy.deepcopy(MAINT_OPS[rng.below(len(MAINT_OPS))]))
+        if op.get("op") == "restart" and rng.chance(2, 3):
+            # maintenance right before a process exit: what the next start-up finds on disk is what it wrote
+            ops_b.append(copy.deepcopy(MAINT_OPS[rng.below(2)]))
         pos_b.append(len(ops_b))
         if op.get("op") == "restart" and b["cfg"]["durability"] != "immediate":
             # batched / async modes promise the state for a graceful shutdown only
